@@ -36,10 +36,10 @@ def all_designs(nmod, maxkids):
 
 def with_flavours(kidlists, salt):
     """Attach a flavour to every module: bit0 array for the first child, bit1 rotated bundle-connection styles,
-    bit2 wide array data.  Deterministic in (design, salt)."""
+    bit2 wide array data, bit3 NoConn on the bq/q ports of an only child.  Deterministic in (design, salt)."""
     out = []
     for i, ks in enumerate(kidlists):
-        f = (salt * 5 + i * 3 + len(ks)) % 8
+        f = (salt * 5 + i * 3 + len(ks)) % 16
         if not ks:
             f &= 2
         out.append([ks, f])
@@ -326,6 +326,9 @@ def corpus():
         mk_job(D3b, [["E1", 1], ["N", [2]], ["NP", [[2, 0, 1], 7]], ["N", [3]], ["ADD", 1], ["ADD", 3]]),
         mk_job(D3b, [["P", [0]], ["NP", [[0, 0], 1]], ["NP", [[3, 1], 2]], ["E1", 4], ["P", [2, 4]]]),
         mk_job(D3b, [], None),
+        # an only child with unconnected (NoConn) bundle and scalar ports, child elaborated first / new parent afterwards
+        mk_job([[[], 0], [[0], 8], [[1], 9]], [["E1", 0], ["P", [2]], ["NP", [[1], 8]], ["N", [3]]]),
+        mk_job([[[], 2], [[0], 12]], [["N", [0]], ["E1", 1], ["NP", [[0], 9]], ["P", [2, 1]]]),
     ]
     return jobs
 
@@ -349,7 +352,7 @@ def gen_random(r, nmod, maxkids, p_np=0.4):
         k = r.randint(0, maxkids) if i < nmod - 1 else r.randint(1, maxkids)
         # mostly connected designs: prefer recent modules as children
         kl.append([r.choice(range(max(0, i - 2), i)) if r.random() < 0.7 else r.randrange(i) for _ in range(k)])
-    design = [[ks, (r.randrange(8) if ks else r.choice([0, 2]))] for ks in kl]
+    design = [[ks, (r.randrange(16) if ks else r.choice([0, 2]))] for ks in kl]
     ops = []
     n = nmod
     elaborated = set()
@@ -358,7 +361,7 @@ def gen_random(r, nmod, maxkids, p_np=0.4):
         u = r.random()
         if u < p_np * 0.5 and n < nmod + 2:
             k = r.randint(1, maxkids)
-            spec = [[r.randrange(n) for _ in range(k)], r.randrange(8)]
+            spec = [[r.randrange(n) for _ in range(k)], r.randrange(16)]
             ops.append(["NP", spec])
             full.append(spec)
             n += 1
@@ -438,7 +441,7 @@ def run(run, tier, seed, replay=None):
     if quick:
         spec = [(2, 2, 1, "fork"), (3, 2, 3, "fork")]
     else:
-        spec = [(2, 3, 1, "fork"), (3, 2, 1, "fork"), (4, 2, 7, "fork")]
+        spec = [(2, 3, 1, "fork"), (3, 2, 1, "fork"), (4, 2, 11, "fork")]
     for nmod, maxkids, stride, mode in spec:
         jobs = exhaustive(nmod, maxkids, stride, offset=seed)
         ndes = len(all_designs(nmod, maxkids))
@@ -454,7 +457,7 @@ def run(run, tier, seed, replay=None):
        box="every 41st (quick) / 11th (thorough) case of the 3-module box, each in a new python process")
 
     # ---------------------------------------------------------------- structured random
-    n_rand = 150 if quick else 2500
+    n_rand = 150 if quick else 1500
     for nmod in ((4,) if quick else (4, 5)):
         jobs = [gen_random(core.rng(seed, "C07", f"random-{nmod}", k), nmod, 3) for k in range(n_rand)]
         outs, res = do(f"random-{nmod}", jobs, "fork", modules=nmod,
